@@ -136,7 +136,9 @@ def run_tlc(module, cfg, wd, workers=8, timeout=1500, env=None, simulate=None, d
         if f.endswith(".tla"):
             shutil.copy(os.path.join(SPEC, f), wd)
     e = dict(os.environ)
-    e["JAVA_TOOL_OPTIONS"] = java_opts + " -Xmx" + heap
+    tmpd = os.path.join(wd, "jtmp")          # TLC unpacks its standard modules into java.io.tmpdir on every run: keep that out of /tmp
+    os.makedirs(tmpd, exist_ok=True)
+    e["JAVA_TOOL_OPTIONS"] = java_opts + " -Xmx" + heap + " -Djava.io.tmpdir=" + tmpd
     if env:
         e.update(env)
     cmd = ["tlc", "-workers", str(workers), "-config", cfg, "-metadir", os.path.join(wd, "states"), "-cleanup", "-noGenerateSpecTE"]
